@@ -93,6 +93,22 @@ class C18(Property):
                 else:
                     ops.append("x")
             cases.append(Case(f"curveseq {m} {pool_str(pl)} # " + " ".join(ops), tags=("random",)))
+        # long Bezier segments (more than 100 control points: longer than what an osu!-mode Catmull segment leaves in the shared
+        # scratch vectors) around short segments of every kind on ONE buffer set: a segment kind that leaves one scratch vector
+        # shorter or longer than the others breaks the next long Bezier only (seed C18-j)
+        def bez(n):
+            return [(g.f32(rng.uniform(-200, 600)), g.f32(rng.uniform(-200, 600)), "B" if i == 0 else None) for i in range(n)]
+        for _ in range(40 if tier == "quick" else 800):
+            m = rng.choice([0, 0, 0, 1, 2, 3])
+            n1 = rng.choice([101, 120, 150, 201, 260])
+            n2 = rng.randint(max(3, n1 - 60), n1)
+            k = rng.choice([2, 2, 3, 4])
+            small = [(g.coord(rng), g.coord(rng), t if i == 0 else None) for i, t in enumerate([rng.choice(["C", "C", "C", "P", "L", "B"])] + [None] * (k - 1))]
+            pl = [bez(n1), small, bez(n2)]
+            order = rng.choice([["0", "1", "2"], ["0", "1", "2"], ["2", "1", "0"], ["1", "0", "1", "2"], ["0", "1", "1", "2", "0"]])
+            api = rng.choice(["o", "b", "ob"])
+            ops = [f"{rng.choice(api)}{i}:-" for i in order]
+            cases.append(Case(f"curveseq {m} {pool_str(pl)} # " + " ".join(ops), tags=("long-bezier-around-short-segments",)))
         return cases
 
     def is_nontrivial(self, case, impl_out):
